@@ -231,23 +231,7 @@ Proof.
   intros HT HW [Hnn HWeq Hnd _] Ha Hb.
   assert (HWeq' : W = sumZ (map weight (map fst es))) by (rewrite HWeq; apply wsum_eq).
   assert (Hnd' : NoDup (map nm (map fst es))) by (rewrite <- ename_map; exact Hnd).
-  pose proof (delta_close T W (map fst es) (fst a) HW Hnn HWeq' Hnd' (in_map fst _ _ Ha)) as HA.
-  pose proof (delta_close T W (map fst es) (fst b) HW Hnn HWeq' Hnd' (in_map fst _ _ Hb)) as HB.
-  pose proof (Hnn _ (in_map fst _ _ Ha)) as Hwa. pose proof (Hnn _ (in_map fst _ _ Hb)) as Hwb.
-  unfold dl. set (da := delta_of T W (map fst es) (fst a)) in *.
-  set (db := delta_of T W (map fst es) (fst b)) in *.
-  set (wa := weight (fst a)) in *. set (wb := weight (fst b)) in *.
-  set (X := da * W - wa * T) in *. set (Y := db * W - wb * T) in *.
-  assert (HQ : (da * wb - db * wa) * W = X * wb - Y * wa) by (unfold X, Y; ring).
-  assert (H1 : X * wb <= W * wb) by nia.
-  assert (H2 : - (W * wb) <= X * wb) by nia.
-  assert (H3 : Y * wa <= W * wa) by nia.
-  assert (H4 : - (W * wa) <= Y * wa) by nia.
-  assert (H5 : (da * wb - db * wa) * W <= (wa + wb) * W) by lia.
-  assert (H6 : - ((wa + wb) * W) <= (da * wb - db * wa) * W) by lia.
-  assert (da * wb - db * wa <= wa + wb) by nia.
-  assert (- (wa + wb) <= da * wb - db * wa) by nia.
-  lia.
+  unfold dl. apply delta_fair; try assumption; apply in_map; assumption.
 Qed.
 
 (* ---------- properties of a whole run, by induction on [Iter] ---------- *)
@@ -416,4 +400,25 @@ Proof.
     assert (Z.of_nat (length (keep_of T W es)) * (wa + wb) + (wa + wb)
             <= Z.of_nat (length es) * (wa + wb)) by nia.
     lia.
+Qed.
+
+(* ---------- fuel: any fuel above the number of entries gives the same run ---------- *)
+Lemma iterate_fuel_S f : forall T W es,
+  (length es < f)%nat -> iterate (S f) T W es = iterate f T W es.
+Proof.
+  induction f as [|f IH]; intros T W es Hlen; [lia|].
+  rewrite (iterate_S (S f) T W es), (iterate_S f T W es).
+  destruct ((W <=? 0) || (T <=? 0) || is_nil es); [reflexivity|].
+  destruct (0 <? surplus_es T W es) eqn:E; [|reflexivity].
+  destruct (negb (is_nil (keep_of T W es))); [|reflexivity]. cbn [andb].
+  apply Z.ltb_lt in E.
+  pose proof (keep_length_lt T W es (surplus_pos_full T W es E)).
+  rewrite IH by lia. reflexivity.
+Qed.
+
+Lemma iterate_fuel_enough k f T W es :
+  (length es < f)%nat -> iterate (k + f) T W es = iterate f T W es.
+Proof.
+  intro Hlen. induction k as [|k IH]; [reflexivity|].
+  cbn [Nat.add]. rewrite iterate_fuel_S by lia. exact IH.
 Qed.
